@@ -302,11 +302,14 @@ End ChainProofs.
 Definition xexception (x : xcomp) : bool :=
   match x with Old c => exception c | _ => false end.
 
-(* the outgoing-RTCP dumper keeps the caller's packet objects: known finding, reported separately *)
+(* roles OUTSIDE the property text (it names the payload slice, read buffer and header): the
+   outgoing-RTCP dumper keeps the caller's packet objects, the leaky bucket pacer and packetdump keep
+   the caller's attributes map.  Observations, not findings: excluded from the library theorem and
+   from the specification oracle, still compared with the model. *)
 Definition xknown_alias (x : xcomp) : bool :=
   match x with DumpSenderRtcp | AttrLeakyBucket | AttrDumpSender => true | _ => false end.
 
-(* ... and of these, the roles about the caller's attributes map (reported under their own code) *)
+(* the roles about the caller's attributes map *)
 Definition xattr_role (x : xcomp) : bool :=
   match x with AttrLeakyBucket | AttrPacing | AttrDumpSender => true | _ => false end.
 
@@ -474,7 +477,8 @@ Proof.
   rewrite Hg. reflexivity.
 Qed.
 
-(* ---- outgoing RTCP through the packetdump sender: the library model keeps the caller's objects ---- *)
+(* ---- outgoing RTCP through the packetdump sender: the library model keeps the caller's objects
+        (observation outside the property text, not a finding) ---- *)
 Definition rtcp_out_history {A} (a b : A) (n : Z) : list (xop A) :=
   [XCall [DumpSenderRtcp] [(1, a, n)]; XScribble 1 b; XEmitAll DumpSenderRtcp].
 
